@@ -10,7 +10,11 @@ VARIABLES p, res
 Init == p \in 1..Len(Progs) /\ res = [out |-> <<>>, outcome |-> "notrun", msg |-> <<>>]
 Next == res.outcome = "notrun" /\ res' = Run(Progs[p]) /\ p' = p
 InDomain == res.outcome \in {"notrun", "ok", "panic"}
-Export == ndJsonSerialize("cases.ndjson",
-            [i \in 1..Len(Progs) |-> LET r == Run(Progs[i]) IN
-               [id |-> Progs[i].id, out |-> r.out, outcome |-> r.outcome, msg |-> r.msg]])
+\* alt: the observable of the variant of the program given as altbody (the body with the labels of its break /
+\* continue statements erased; <<>> = the program has no such variant), computed by the same interpreter: lets the
+\* judge name the root cause "the label is ignored"
+NoAlt == [out |-> <<>>, outcome |-> "none", msg |-> <<>>]
+ExportOne(pr, r) == [id |-> pr.id, out |-> r.out, outcome |-> r.outcome, msg |-> r.msg,
+                     alt |-> IF pr.altbody = <<>> THEN NoAlt ELSE Run([pr EXCEPT !.body = pr.altbody])]
+Export == ndJsonSerialize("cases.ndjson", [i \in 1..Len(Progs) |-> ExportOne(Progs[i], Run(Progs[i]))])
 =============================================================================
